@@ -583,7 +583,7 @@ def expected_inputs(schema, case):
     return full[:n]
 
 
-def judge(env: Env, mid, op, version, schema, case, r):
+def judge(env: Env, mid, op, version, schema, case, r, cls=None):
     """-> [(key, what)]: ways in which this call violates the property statement"""
     onnx = env.onnx
     out = []
@@ -601,6 +601,15 @@ def judge(env: Env, mid, op, version, schema, case, r):
         out.append((f"{mid}:{op}:call:{st}", f"{st}: {r.get('err', '')}"[:300]))
         return out
     p = r["proto"]
+    node = r["node"]
+    nt = node.op_type
+    if (cls is not None and type(node) is not cls) or (nt.identifier, nt.domain, nt.version) != (
+        schema.name, schema.domain, schema.since_version
+    ):
+        out.append((f"{mid}:{op}:constructor:class",
+                    f"the constructor builds a {type(node).__name__} node {(nt.identifier, nt.domain, nt.version)}; the module's "
+                    f"_OPERATORS entry is {getattr(cls, '__name__', None)} and the schema in force is "
+                    f"{(schema.name, schema.domain, schema.since_version)}"))
     if p.op_type != schema.name or p.domain != schema.domain:
         out.append((f"{mid}:{op}:node:op_type", f"emitted {p.domain!r}::{p.op_type}, schema {schema.domain!r}::{schema.name}"))
     want = expected_inputs(schema, case)
@@ -827,7 +836,7 @@ def run(ck: core.Check):
             for case, r in cache[ckey]:
                 stats["calls"] += 1
                 ck.count(("call", mid, op, tuple(case["present"]), case["variadic"], tuple(case["attrs"]), case["mode"]))
-                verdicts = judge(env, mid, op, version, schema, case, r)
+                verdicts = judge(env, mid, op, version, schema, case, r, cls)
                 for key, what in verdicts:
                     ck.failure(key, what, {"module": mid, "op": op, "kind": "call", "case": case})
                 if r["status"] != "ok":
@@ -910,7 +919,7 @@ def replay(ck: core.Check, doc) -> bool:
     verdicts = reflect(env, mid, op, cls, fn, schema) if c.get("kind") == "reflect" else []
     if c.get("kind") == "call" and fn is not None:
         r = run_case(env, fn, schema, c["case"])
-        verdicts += judge(env, mid, op, version, schema, c["case"], r)
+        verdicts += judge(env, mid, op, version, schema, c["case"], r, cls)
         if r.get("proto") is not None:
             print("emitted:", str(r["proto"]).replace("\n", " ")[:400])
     key = doc.get("key")
